@@ -193,6 +193,18 @@ class SelectContext(Selector):
         else:
             return res
 
+    def __repr__(self):
+        # Selector.__repr__ uses attributes that are not set here;
+        # repr is needed when this object is used in another selector.
+        pred_repr = getattr(self._predicate, "__name__", None)
+        if pred_repr is None:
+            pred_repr = repr(self._predicate)
+        if self._raise_on_error is False:
+            return "SelectContext({}, {}, raise_on_error=False)".format(
+                repr(self._key), pred_repr
+            )
+        return "SelectContext({}, {})".format(repr(self._key), pred_repr)
+
 
 class And(Selector):
     """And-test of multiple selectors."""
